@@ -28,7 +28,7 @@ RULE = ("per run a history of 6-40 operations: create mode (ECB/CBC/CFB-s/OFB/CT
 REAL = ["pyaes.aes (AES, all modes, Counter)", "pyaes.blockfeeder (Encrypter, Decrypter, stream pumps)", "pyaes.util",
         "register_crypto_plugin.AES128Proxy via bec2format.crypto.create_AES128"]
 STUBS = ["input/output streams: SimByteStream (short reads)", "RefAES (bit-level reference)"]
-PROBES = ["runs-with-assertions-disabled", "ctr-default-counter", "adapter-input-64k-or-more", "shared-adapter-two-threads", "key-in-reused-buffer", "both-directions-on-one-object", "ctr-wrap", "cfb-partial-final-segment", "feeder-chunk-zero", "short-read", "adapter-reused",
+PROBES = ["refused-call-then-continue", "runs-with-assertions-disabled", "ctr-default-counter", "adapter-input-64k-or-more", "shared-adapter-two-threads", "key-in-reused-buffer", "both-directions-on-one-object", "ctr-wrap", "cfb-partial-final-segment", "feeder-chunk-zero", "short-read", "adapter-reused",
           "adapter-trailing-zero-plaintext", "interleaved-objects", "key-24", "key-32", "pump-block-size-1",
           "decrypter-pkcs7"]
 ASSUMPTIONS = ["sharing one *mode* object between two feeders has no defined result and is not generated"]
@@ -102,6 +102,9 @@ def gen(st, tier):
                 o["done"] = True
             else:
                 ops.append(["feed", o["id"], w.choice([0, 1, 3, 15, 16, 17, 31, 32, 33, 64, 100])])
+        elif o["mode"] in ("ecb", "cbc") and w.random() < 0.15:
+            # a call the block-mode object refuses (not one block); the caller goes on with complete blocks
+            ops.append(["refused", o["id"], w.choice([0, 1, 15, 17, 31, 32])])
         else:
             ops.append(["direct", o["id"], w.choice([1, 2, 3, 5, 16, 32, 48])])
     for o in objs:
@@ -421,7 +424,23 @@ def run(case):
                              "mode definition applied to the whole input (%d vs %d bytes)"
                              % (o["mode"], o["dir"], o["pad"], len(o["key"]) // 2, len(s["inp"]), len(s["outp"]), len(exp)))
                 continue
+            if k == "refused":
+                if s.get("broken"):
+                    continue
+                chunk = bytes(rnd.getrandbits(8) for _ in range(op[2]))
+                try:
+                    (s["obj"].encrypt if o["dir"] == "enc" else s["obj"].decrypt)(chunk)
+                except Exception as e:
+                    # refused: nothing was processed, later blocks must still follow the mode definition
+                    out.probes["refused-call-then-continue"] += 1
+                    out.ev("refused", oid, op[2], type(e).__name__)
+                else:
+                    s["broken"] = True      # accepted input that is not a block: no demand on what follows
+                    out.ev("refused-accepted", oid, op[2])
+                continue
             if k == "direct":
+                if s.get("broken"):
+                    continue
                 n = op[2]
                 if o["mode"] in ("ecb", "cbc"):
                     n = 16
